@@ -95,3 +95,156 @@ package schedule
 //@   loop 2 invariant upFiltered(r.ordinaryEngine) && r.specialEngines != nil && (forall e string :: {in(r.specialEngines, e)} in(r.specialEngines, e) ==> upFiltered(r.specialEngines[e])) && r.cluster != nil && (forall e string :: {in(specialPeers, e)} in(specialPeers, e) ==> peerMapOK(specialPeers[e]) && specialPeers[e] != targetPeers)
 //@   loop 2 modifies r.specialEngines[*], targetPeers[*], selectedStores[*], ghost evres
 //@   modifies *
+
+// ================= C09: the running set of the operator controller =================
+// The running set is a map keyed by region id (so there is at most one running operator per region); every entry is
+// an operator FOR that region.  An operator leaves the set only through removeOperatorLocked; RemoveOperator and the
+// replace path of addOperatorLocked then put it into an end status and record it (OperatorRecords.Put, ghost event
+// `Bury` with the operator and its status at that moment).
+//@ ghostmap buriedSt int
+//@ pure ocOK(oc *OperatorController) = oc.operators != nil && oc.opRecords != nil && (forall id uint64 :: {in(oc.operators, id)} in(oc.operators, id) ==> oc.operators[id] != nil && allocated(oc.operators[id]) && oc.operators[id].regionID == id && oc.operators[id].status.current < 7)
+//@ pure endSt(s int) = s == 2 || s == 3 || s == 4 || s == 5 || s == 6
+//@ func (*OperatorRecords).Put
+//@   assumed
+//@   option event Bury
+//@   requires op != nil
+//@   ensures buriedSt[op] == op.status.current
+//@   modifies ghost buriedSt[op]
+//@ func (*OperatorController).updateCounts
+//@   assumed
+//@   modifies oc.counts[*]
+//@ func (*OperatorController).removeOperatorLocked
+//@   props C09
+//@   requires oc != nil && oc.operators != nil && op != nil
+//@   ensures [only-the-current-one] result == (old(in(oc.operators, op.regionID)) && old(oc.operators[op.regionID]) == op)
+//@   ensures [removed] result ==> !in(oc.operators, op.regionID)
+//@   ensures [others-stay] forall id uint64 :: {in(oc.operators, id)} id != op.regionID || !result ==> in(oc.operators, id) == old(in(oc.operators, id)) && oc.operators[id] == old(oc.operators[id])
+//@   modifies oc.operators[*], oc.counts[*]
+//@ func (*OperatorController).removeOperatorWithoutBury
+//@   props C09
+//@   requires oc != nil && oc.operators != nil && op != nil
+//@   ensures [only-the-current-one] result == (old(in(oc.operators, op.regionID)) && old(oc.operators[op.regionID]) == op)
+//@   ensures [removed] result ==> !in(oc.operators, op.regionID)
+//@   ensures [others-stay] forall id uint64 :: {in(oc.operators, id)} id != op.regionID || !result ==> in(oc.operators, id) == old(in(oc.operators, id)) && oc.operators[id] == old(oc.operators[id])
+//@   modifies oc.operators[*], oc.counts[*]
+// buryOperator: whatever status the operator arrives with, it is in an end status afterwards and has been recorded
+// with that end status.
+//@ func (*OperatorController).buryOperator
+//@   props C09
+//@   requires oc != nil && oc.opRecords != nil && op != nil && op.status.current < 7
+//@   ensures [end-status] endSt(op.status.current)
+//@   ensures [recorded-as-ended] count("Bury") == old(count("Bury")) + 1 && buriedSt[op] == op.status.current
+//@   ensures [final-states-stay] endSt(old(op.status.current)) ==> op.status.current == old(op.status.current)
+//@   modifies op.status.current, op.status.reachTimes, ghost evres, ghost buriedSt[op]
+// RemoveOperator: an operator that leaves the running set is cancelled (unless it had already ended) and recorded.
+//@ func (*OperatorController).RemoveOperator
+//@   props C09
+//@   requires oc != nil && oc.operators != nil && oc.opRecords != nil && op != nil && op.status.current < 7
+//@   ensures [only-the-current-one] result == (old(in(oc.operators, op.regionID)) && old(oc.operators[op.regionID]) == op)
+//@   ensures [left-in-an-end-status-and-recorded] result ==> !in(oc.operators, op.regionID) && endSt(op.status.current) && buriedSt[op] == op.status.current && count("Bury") == old(count("Bury")) + 1
+//@   ensures [not-running-not-touched] !result ==> op.status.current == old(op.status.current) && count("Bury") == old(count("Bury"))
+//@   ensures [a-live-one-is-cancelled] result && (old(op.status.current) == 0 || old(op.status.current) == 1) ==> op.status.current == 3
+//@   ensures [others-stay] forall id uint64 :: {in(oc.operators, id)} id != op.regionID || !result ==> in(oc.operators, id) == old(in(oc.operators, id)) && oc.operators[id] == old(oc.operators[id])
+//@   modifies oc.operators[*], oc.counts[*], op.status.current, op.status.reachTimes, ghost evres, ghost buriedSt[op]
+
+// Surroundings of the running set (store limits, influence estimates, the notifier queue, message sending, waiting
+// operators): they never touch the running set or an operator's status.
+//@ func NewTotalOpInfluence
+//@   assumed
+//@   ensures [fresh-map] result.StoresInfluence != nil && !old(allocated(result.StoresInfluence))
+//@   modifies nothing
+//@ func (*OperatorController).SendScheduleCommand
+//@   assumed
+//@   modifies ghost evres
+//@ func (*OperatorController).PromoteWaitingOperator
+//@   assumed
+//@   ensures [ended-ones-stay-ended] forall o *operator.Operator :: {o.status.current} endSt(old(o.status.current)) ==> o.status.current == old(o.status.current)
+//@   modifies oc.operators[*], oc.counts[*], all operator.Operator.status, all operator.Operator.currentStep, heap A:int64:, oc.wopStatus.ops[*], ghost evres, ghost buriedSt
+//@ func (*OperatorController).pushHistory
+//@   assumed
+//@   modifies nothing
+//@ func (*OperatorController).pushFastOperator
+//@   assumed
+//@   modifies nothing
+//@ func (*OperatorController).exceedStoreLimitLocked
+//@   assumed
+//@   modifies nothing
+//@ pure sameEpoch(r *core.RegionInfo, op *operator.Operator) = r != nil && ite(r.meta.RegionEpoch == nil, 0, r.meta.RegionEpoch.Version) == ite(op.regionEpoch == nil, 0, op.regionEpoch.Version) && ite(r.meta.RegionEpoch == nil, 0, r.meta.RegionEpoch.ConfVer) == ite(op.regionEpoch == nil, 0, op.regionEpoch.ConfVer)
+// checkAddOperator: operators are admitted only if, for each of them, the cluster knows the region, the operator's
+// recorded epoch equals the region's current epoch, the region has no running operator of the same or a higher
+// priority, and the operator is freshly created (not started, not expired).
+//@ func (*OperatorController).checkAddOperator
+//@   props C09
+//@   requires oc != nil && oc.cluster != nil && oc.operators != nil && oc.wopStatus != nil && (forall i :: {ops[i]} 0 <= i && i < len(ops) ==> ops[i] != nil && allocated(ops[i]) && ops[i].status.current < 7)
+//@   ensures [admitted-only-with-current-epoch] result ==> forall i :: {ops[i]} 0 <= i && i < len(ops) ==> sameEpoch(ufptr("clusterRegion", core.RegionInfo, oc.cluster, ops[i].regionID), ops[i])
+//@   ensures [admitted-only-freshly-created] result ==> forall i :: {ops[i]} 0 <= i && i < len(ops) ==> ops[i].status.current == 0
+//@   ensures [admitted-only-over-lower-priority] result ==> forall i :: {ops[i]} 0 <= i && i < len(ops) ==> oc.operators[ops[i].regionID] == nil || ops[i].level > oc.operators[ops[i].regionID].level
+//@   ensures [status-only-expires] forall o *operator.Operator :: {o.status.current} o.status.current == old(o.status.current) || (old(o.status.current) == 0 && o.status.current == 5)
+//@   loop 1 invariant forall i :: {ops[i]} 0 <= i && i <= rangeindex ==> sameEpoch(ufptr("clusterRegion", core.RegionInfo, oc.cluster, ops[i].regionID), ops[i]) && ops[i].status.current == 0 && (oc.operators[ops[i].regionID] == nil || ops[i].level > oc.operators[ops[i].regionID].level)
+//@   loop 2 invariant (forall i :: {ops[i]} 0 <= i && i < len(ops) ==> sameEpoch(ufptr("clusterRegion", core.RegionInfo, oc.cluster, ops[i].regionID), ops[i]) && (oc.operators[ops[i].regionID] == nil || ops[i].level > oc.operators[ops[i].regionID].level))
+//@   loop 2 invariant forall o *operator.Operator :: {o.status.current} o.status.current == old(o.status.current) || (old(o.status.current) == 0 && o.status.current == 5)
+//@   loop 2 invariant expired || (forall i :: {ops[i]} 0 <= i && i < len(ops) ==> ops[i].status.current == 0)
+//@   loop 2 modifies all operator.Operator.status, ghost evres
+//@   modifies all operator.Operator.status, ghost evres
+
+// addOperatorLocked: the operator is started and becomes THE running operator of its region; an operator it replaces
+// leaves the set in status REPLACED (or the end status it already had) and is recorded; nothing else changes in the set.
+//@ func (*OperatorController).addOperatorLocked
+//@   props C09
+//@   requires oc != nil && ocOK(oc) && oc.cluster != nil && op != nil && allocated(op) && op.status.current < 7
+//@   ensures [running-set-ok] ocOK(oc)
+//@   ensures [started-and-running] result ==> in(oc.operators, op.regionID) && oc.operators[op.regionID] == op && (op.status.current == 1 || op.status.current == 2 || op.status.current == 6)
+//@   ensures [only-started-from-created] result ==> old(op.status.current) == 0
+//@   ensures [not-started-not-running] !result ==> !in(oc.operators, op.regionID)
+//@   ensures [replaced-one-is-ended-and-recorded] old(in(oc.operators, op.regionID)) && old(oc.operators[op.regionID]) != op ==> endSt(old(oc.operators[op.regionID]).status.current) && buriedSt[old(oc.operators[op.regionID])] == old(oc.operators[op.regionID]).status.current
+//@   ensures [others-stay] forall id uint64 :: {in(oc.operators, id)} id != op.regionID ==> in(oc.operators, id) == old(in(oc.operators, id)) && oc.operators[id] == old(oc.operators[id])
+//@   ensures [statuses-stay-statuses] forall o *operator.Operator :: {o.status.current} old(o.status.current) < 7 ==> o.status.current < 7
+//@   loop 1 modifies opInfluence.StoresInfluence[*], ghost evres
+//@   loop 2 modifies opInfluence.StoresInfluence[*], ghost evres
+//@   modifies oc.operators[*], oc.counts[*], all operator.Operator.status, op.currentStep, op.stepsTime[*], ghost evres, ghost buriedSt
+
+// PromoteWaitingOperator (waiting buckets, random choice: not verified): whatever it starts was a freshly created
+// operator, operators that have ended stay as they are, the running set stays well-formed.
+//@ pure running(oc *OperatorController, op *operator.Operator) = in(oc.operators, op.regionID) && oc.operators[op.regionID] == op
+//@ pure confVerOf(r *core.RegionInfo) = ite(r.meta.RegionEpoch == nil, 0, r.meta.RegionEpoch.ConfVer)
+//@ pure confVerDelta(r *core.RegionInfo, op *operator.Operator) = ite(confVerOf(r) >= ite(op.regionEpoch == nil, 0, op.regionEpoch.ConfVer), confVerOf(r) - ite(op.regionEpoch == nil, 0, op.regionEpoch.ConfVer), confVerOf(r) - ite(op.regionEpoch == nil, 0, op.regionEpoch.ConfVer) + 18446744073709551616)
+// checkStaleOperator: a running operator whose current step is refused by its own safety check, or whose region has
+// advanced its configuration version by more than the operator's finished and current steps account for, is cancelled,
+// leaves the running set and is recorded; otherwise nothing changes.
+//@ func (*OperatorController).checkStaleOperator
+//@   props C09
+//@   requires oc != nil && oc.operators != nil && oc.opRecords != nil && op != nil && allocated(op) && op.status.current < 7 && region != nil && step != nil
+//@   ensures [unsafe-step-means-stale] old(running(oc, op)) && !ufb("stepSafe", step, region) ==> result
+//@   ensures [unaccounted-conf-change-means-stale] old(running(oc, op)) && old(confVerDelta(region, op)) > uf("opConfVerChanged", op, region) ==> result
+//@   ensures [only-then] result ==> old(running(oc, op)) && (!ufb("stepSafe", step, region) || old(confVerDelta(region, op)) > uf("opConfVerChanged", op, region))
+//@   at PromoteWaitingOperator 1 assert [stale-one-left-ended-and-recorded] !in(oc.operators, op.regionID) && endSt(op.status.current) && buriedSt[op] == op.status.current && (old(op.status.current) == 1 ==> op.status.current == 3)
+//@   at PromoteWaitingOperator 2 assert [stale-one-left-ended-and-recorded] !in(oc.operators, op.regionID) && endSt(op.status.current) && buriedSt[op] == op.status.current && (old(op.status.current) == 1 ==> op.status.current == 3)
+//@   ensures [not-stale-untouched] !result ==> op.status.current == old(op.status.current) && (forall id uint64 :: {in(oc.operators, id)} in(oc.operators, id) == old(in(oc.operators, id)) && oc.operators[id] == old(oc.operators[id]))
+//@   modifies oc.operators[*], oc.counts[*], all operator.Operator.status, all operator.Operator.currentStep, heap A:int64:, oc.wopStatus.ops[*], ghost evres, ghost buriedSt
+
+// Dispatch (one heartbeat or push for a region): a command is sent only for a running operator that is STARTED and,
+// on a heartbeat, has just been judged not stale; an operator found in an end status (success, timeout, or any
+// unexpected one) leaves the running set, is in an end status and is recorded before anything else happens.
+//@ func (*OperatorController).Dispatch
+//@   props C09
+//@   requires oc != nil && ocOK(oc) && oc.cluster != nil && region != nil && region.meta != nil
+//@   at SendScheduleCommand 1 assert [commands-only-for-a-started-operator-that-is-not-stale] op.status.current == 1 && op.regionID == region.meta.Id && (source == "heartbeat" ==> ufb("stepSafe", step, region) && old(confVerDelta(region, op)) <= uf("opConfVerChanged", op, region))
+//@   at PromoteWaitingOperator 1 assert [ended-operator-left-and-recorded] !in(oc.operators, op.regionID) && endSt(op.status.current) && buriedSt[op] == op.status.current
+//@   at PromoteWaitingOperator 2 assert [ended-operator-left-and-recorded] !in(oc.operators, op.regionID) && endSt(op.status.current) && buriedSt[op] == op.status.current
+//@   at PromoteWaitingOperator 3 assert [ended-operator-left-and-recorded] !in(oc.operators, op.regionID) && endSt(op.status.current) && buriedSt[op] == op.status.current
+//@   modifies *
+
+// AddOperator: operators enter the running set only after checkAddOperator accepted them (current epoch, freshly
+// created, no running operator of the same or a higher priority); refused ones are all cancelled and recorded; the
+// running set stays well-formed either way.
+//@ func (*OperatorController).AddOperator
+//@   props C09
+//@   requires oc != nil && ocOK(oc) && oc.cluster != nil && oc.wopStatus != nil && (forall i :: {ops[i]} 0 <= i && i < len(ops) ==> ops[i] != nil && allocated(ops[i]) && ops[i].status.current < 7)
+//@   ensures [running-set-ok] ocOK(oc)
+//@   ensures [admitted-only-with-current-epoch] result ==> forall i :: {ops[i]} 0 <= i && i < len(ops) ==> sameEpoch(ufptr("clusterRegion", core.RegionInfo, oc.cluster, ops[i].regionID), ops[i])
+//@   loop 1 invariant ocOK(oc) && (forall i :: {ops[i]} 0 <= i && i < len(ops) ==> ops[i].status.current < 7) && (forall i :: {ops[i]} 0 <= i && i <= rangeindex ==> endSt(ops[i].status.current))
+//@   loop 1 modifies all operator.Operator.status, ghost evres, ghost buriedSt
+//@   loop 2 invariant ocOK(oc) && (forall i :: {ops[i]} 0 <= i && i < len(ops) ==> ops[i].status.current < 7)
+//@   loop 2 modifies oc.operators[*], oc.counts[*], all operator.Operator.status, all operator.Operator.currentStep, heap A:int64:, ghost evres, ghost buriedSt
+//@   at addOperatorLocked 1 assert [admitted-with-current-epoch] sameEpoch(ufptr("clusterRegion", core.RegionInfo, oc.cluster, op.regionID), op)
+//@   modifies oc.operators[*], oc.counts[*], all operator.Operator.status, all operator.Operator.currentStep, heap A:int64:, ghost evres, ghost buriedSt
